@@ -14,11 +14,14 @@ mcvars == <<cfg, up, ceOn, nin, cein, loc, vrfs, mem, wait, eor, deadline, now, 
 (* alphabets by name *)
 RtSets == CASE Pool = "a" -> {{}, {"rt1"}, {"rt1", "rt2"}, {"rt3"}}
             [] Pool = "b" -> {{"rt1", "rt2"}, {"rt2", "rt3"}, {"nt1"}, {"rt3"}}
+            [] Pool = "c" -> {{"rt1"}, {"rt3"}}
 MemSet == CASE Pool = "a" -> {Mem(65000, "rt1", 0), Mem(65000, "rt2", 0), Mem(0, "def", 0)}
             [] Pool = "b" -> {Mem(65000, "rt2", 0), Mem(65009, "rt2", 0), Mem(65000, "rt3", 1), Mem(0, "def", 0)}
+            [] Pool = "c" -> {Mem(65000, "rt1", 0)}
 VrfSet == CASE Pool = "a" -> {V1a, V2a}
             [] Pool = "b" -> {V1a, V1b, V2b}
-KSet   == CASE Pool = "a" -> {"k1"} [] Pool = "b" -> {"k1", "k2"}
+            [] Pool = "c" -> {V1a}
+KSet   == CASE Pool = "a" -> {"k1"} [] Pool = "b" -> {"k1", "k2"} [] Pool = "c" -> {"k1", "k3"}
 
 Init == MInit([defer |-> Defer, addpath |-> FALSE]) /\ nev = 0
 
@@ -27,7 +30,7 @@ Ev == nev < MaxEvents /\ nev' = nev + 1
 Next ==
   /\ Ev
   /\ \/ \E p \in {"N1", "N2"} : MUp(p) \/ MDown(p)
-     \/ MCeUp \/ MCeDown
+     \/ (HasVrf(CeVrf) /\ \E d \in CeDumps : MCeUp(d)) \/ MCeDown
      \/ \E k \in KSet : \E s \in RtSets : MVAnn(VRoute(k, s, 1))
      \/ \E k \in KSet : nin # {} /\ MVWd(VRoute(k, {}, 0))
      \/ \E m \in MemSet : MMAnn(m) \/ MMWd(m)
